@@ -108,10 +108,36 @@ def caller_array_hazards(fnode, array_params=ARRAY_PARAMS):
                 # a parameter rebound to a fresh value is no longer the caller's object after that point; conservatively
                 # keep it only if every rebinding is itself an alias
                 pass
-    rebound_fresh = {n for n, vs in rebinds.items() if n in params and vs}
+    # a parameter is no longer the caller's object only after an *unconditional* rebinding to a fresh value (a statement of the
+    # function body itself, not one under if/for/while/try/with): on the other paths of a conditional rebinding it still is
+    def is_alias_value(v):
+        if isinstance(v, ast.Name):
+            return v.id in alias
+        if isinstance(v, ast.Call):
+            fn = v.func
+            nm = fn.attr if isinstance(fn, ast.Attribute) else fn.id if isinstance(fn, ast.Name) else None
+            if nm in NOCOPY:
+                if v.args and isinstance(v.args[0], ast.Name):
+                    return v.args[0].id in alias
+                if isinstance(fn, ast.Attribute) and isinstance(fn.value, ast.Name):
+                    return fn.value.id in alias
+        return False
+    fresh_from = {}
+    for i_, st in enumerate(body):
+        if isinstance(st, ast.Assign) and not is_alias_value(st.value):
+            for t in st.targets:
+                if isinstance(t, ast.Name) and t.id in params and t.id not in fresh_from:
+                    fresh_from[t.id] = st.lineno
+    class _Fresh:
+        def __init__(self, line=None):
+            self.line = line
+        def __contains__(self, name):
+            return name in fresh_from and (self.line is None or self.line > fresh_from[name])
+    rebound_fresh = _Fresh()
     hazards = []
     for st in body:
         for node in ast.walk(st):
+            rebound_fresh = _Fresh(getattr(node, 'lineno', None))
             if isinstance(node, ast.AugAssign):
                 t = node.target
                 base = t.id if isinstance(t, ast.Name) else t.value.id if isinstance(t, ast.Subscript) and isinstance(t.value, ast.Name) else None
